@@ -7,7 +7,7 @@ from driver import ScanProperty
 class C05(ScanProperty):
     ID = 'C05'
     THEOREMS = [('Properties.C05', ['C05_selection', 'C05_selection_generic', 'C05_first_among_maximal', 'C05_find_equals_specification',
-                                    'C05_mode_okb_sound', 'C05_nonvacuous'])]
+                                    'C05_mode_okb_sound', 'C05_nonvacuous', 'C05_oracle_is_the_rule', 'C05_specification_accepted_by_oracle'])]
     COQ_TARGETS = ['Properties/C05.vo']
     CAPSTONE = {'quick': 40, 'thorough': 400}      # pipeline model on modes WITH lookaheads (see C01)
     ASSUMPTIONS = ['accepting token types of every automaton are listed in its terminal_ids (mode_okb, checked on every dump)',
